@@ -1,13 +1,14 @@
 (* Proofs/C02_ReachPartial.v - C02_statement restricted to the histories built from
      Url::parse without base on a non-file scheme (special schemes: without encoding override)
-     followed by any number of set_fragment / set_query / set_port calls with arbitrary arguments:
+     followed by any number of set_fragment / set_query / set_port calls with arbitrary arguments and of joins
+   with a scheme-less reference that is empty, fragment-only or query-led (tail_ref):
    every such record is Canon, hence a fixpoint of re-parsing; and these histories are inside Reachable2. *)
 From Coq Require Import String.
 From RU Require Import Base.Prelude Base.Utf8 Base.Utf8Facts Model.AsciiSet Gen.Tables
   Model.PercentEncoding Model.HostT Model.UrlRecord Model.Parser Model.Setters Model.WF
   Proofs.ListN Proofs.C02_Enc Proofs.C02_Parts Proofs.C02_Opaque Proofs.C02_Path Proofs.C02_PathL1 Proofs.C02_Reach
   Proofs.C02_AuthParts Proofs.C02_Auth Proofs.C02_AuthWf Proofs.C02_PathSp Proofs.C02_AuthSp Proofs.C02_AuthMain
-  Proofs.C02_Hist Proofs.C02_SetQF Proofs.C02_Canon Proofs.C02_SetPort.
+  Proofs.C02_Hist Proofs.C02_SetQF Proofs.C02_Canon Proofs.C02_SetPort Proofs.C02_JoinTail.
 Open Scope N_scope.
 Open Scope list_scope.
 
@@ -35,6 +36,10 @@ Inductive ReachC : url -> Prop :=
 | RC_parse ovr input u :
     usv_list input -> nonfile_input input = true -> (ovr = None \/ special_input input = false) ->
     parse_url dbg hp hpo hd ovr None input = POk u -> ReachC u
+| RC_join ovr b input u :
+    ReachC b -> usv_list input -> tail_ref input = true ->
+    (ovr = None \/ st_is_special (scheme_type_of (b_scheme b)) = false) ->
+    parse_url dbg hp hpo hd ovr (Some b) input = POk u -> ReachC u
 | RC_step u o u' :
     ReachC u -> tail_op o = true -> op_args_ok o -> apply_op dbg hp hpo hd u o = Some u' ->
     nlen (ser u') <= U32_MAX_P -> ReachC u'.
@@ -44,8 +49,9 @@ Proof. destruct x as [[a0 b0]|]; [|discriminate]. cbn. intros E. inversion E; su
 
 Theorem ReachC_Canon u : ReachC u -> Canon hp hpo hd u.
 Proof.
-  induction 1 as [ovr input u Hu Hn Hov Hp | u o u' Hr IH Ht Ha Ho Hb].
+  induction 1 as [ovr input u Hu Hn Hov Hp | ovr b input u Hr IH Hu Ht Hov Hp | u o u' Hr IH Ht Ha Ho Hb].
   - exact (parse_Canon dbg hp hpo hd HRT ovr input u HAb Hu Hn Hov Hp).
+  - exact (join_tail_Canon dbg hp hpo hd HRT ovr b input u IH Hu Ht Hov Hp).
   - destruct o; try discriminate Ht; cbn [apply_op op_args_ok] in *.
     + exact (set_fragment_Canon dbg hp hpo hd HRT u f u' IH Ha Ho Hb).
     + exact (set_query_Canon dbg hp hpo hd HRT u q u' IH Ha Ho Hb).
@@ -80,9 +86,11 @@ Qed.
 
 Theorem ReachC_Reachable2 u : ReachC u -> Reachable2 dbg hp hpo hd u.
 Proof.
-  intros H. induction H as [ovr input u Hu Hn Hov Hp | u o u' Hr IH Ht Ha Ho Hb].
+  intros H. induction H as [ovr input u Hu Hn Hov Hp | ovr b input u Hr IH Hu Ht Hov Hp | u o u' Hr IH Ht Ha Ho Hb].
   - apply (R2_parse dbg hp hpo hd ovr input u Hu Hp).
     apply Canon_not_file_drive. exact (parse_Canon dbg hp hpo hd HRT ovr input u HAb Hu Hn Hov Hp).
+  - apply (R2_join dbg hp hpo hd ovr b input u IH Hu Hp).
+    apply Canon_not_file_drive. apply ReachC_Canon. exact (RC_join ovr b input u Hr Hu Ht Hov Hp).
   - apply (R2_step dbg hp hpo hd u o u' IH Ha (tail_op_not_known dbg hp hpo hd u o Ht) Ho).
     apply Canon_not_file_drive. apply ReachC_Canon. exact (RC_step u o u' Hr Ht Ha Ho Hb).
 Qed.
